@@ -123,7 +123,7 @@ def run(ctx: Ctx) -> Outcome:
            "traces_validated_against_impl": len(events), "evaluations": len(events), "distinct_nontrivial": len(nontrivial),
            "abstract_histories": len(hists), "families": FAMILY_NAMES,
            "rule": "TLC enumerates every abstract history of the bound over {call [eq, d], deep-mutate the result and input of an earlier call, "
-                   "clear caches}; each is instantiated in 34 concrete families of colliding arguments (both member orders of a union at root "
+                   "clear caches}; each is instantiated in 35 concrete families of colliding arguments (both member orders of a union at root "
                    "and nested, equal instants with different offsets, str/bytes/bytearray text, bare containers, 1/1.0/True, same-named "
                    "classes, bare and qualified string references from two modules, recursive types, codec configurations, dateparse "
                    "targets, routine kinds of one class in every build order, different inputs to one routine, a class with a private init field, text decoding to nested containers, == durations of different classes, temporal -> text targets, == mapping keys, annotations of one runtime origin that need different routines, values of different classes for one annotation, the same input object again after a failed call and an in-place repair) and run warm in a fresh fork; every call is compared with the same call alone in another fresh fork; "
